@@ -134,6 +134,26 @@ PROPS["C20"] = {
     "trusted": ["go-amino, encoding/json, time.Format"],
 }
 
+PROPS["C19"] = {
+    "lean_modules": ["Posmint.Props.C19"], "namespaces": ["Posmint.Props.C19"],
+    "required_theorems": ["Posmint.Props.C19." + t for t in ("leaf_verify_iff", "sign_verifies", "verify_iff", "multisig_iff", "verify_key_unique",
+                          "verify_msg_unique", "shape_mismatch_rejected", "length_mismatch_rejected", "kstep_refines", "kstep_sorted", "list_exact",
+                          "wrong_pass_no_effect", "import_wrong_pass_no_effect", "import_existing_refused", "export_import_roundtrip",
+                          "create_then_use", "delete_exact")],
+    "t1": [{"family": "keys", "model": "keys", "quick_n": 4000, "thorough_n": 120000, "corpus": "keys", "reset_token": "kb.new"}],
+    "rule": "two streams on the real crypto package: (1) multisignature verification of random key trees (ed25519 and secp256k1 leaves, nesting to "
+            "depth 3, 0..4 components per node) against the genuine positional signature or a damaged one (component dropped, duplicated, swapped, "
+            "replaced by a signature of another key / message / garbage / empty bytes, re-nested, signature of an unrelated key tree); each accepted "
+            "signature is re-verified under another message; (2) keybase operation sequences on the in-memory keybase (create, delete, update, sign, "
+            "armored export/import, raw export/import, list) with right and wrong passphrases (empty, ASCII, unicode, 40 bytes); after every refused "
+            "operation the stored records are compared byte for byte with those before; non-trivial = distinct (operation, outcome) with distinct text",
+    "assumptions": ["ed25519 / secp256k1 unforgeability and the armor's authenticated encryption (bcrypt + xsalsa20-poly1305) are assumptions: a leaf "
+                    "signature is modelled as the pair (signer, message), an armored key as the pair (key, passphrase)",
+                    "bcrypt ignores everything after a NUL byte and treats \"\" like \"\\x00\": the generator's passphrases avoid NUL bytes",
+                    "the keybase runs on the in-memory DB; its LevelDB persistence is tm-db's"],
+    "trusted": ["tendermint/crypto (ed25519, secp256k1), golang.org/x/crypto bcrypt / nacl secretbox, tm-db MemDB"],
+}
+
 # development-only entry: the chain family with all monitors, no Lean module (not in MANIFEST)
 PROPS["XCHAIN"] = {
     "lean_modules": [], "namespaces": [],
@@ -144,6 +164,15 @@ PROPS["XCHAIN"] = {
 NOT_APPLICABLE = {}
 
 MANIFEST_TEXT = {
+    "C19": {"text": "Lean theorems over key trees of any shape and depth: a (nested) multisignature key accepts exactly one signature per message - the "
+                    "one in which every listed key signed in its own position - so dropped, duplicated, exchanged, re-nested or foreign components, "
+                    "plain-for-multi and multi-for-plain signatures are all rejected; what verifies under one key verifies under no other key and for "
+                    "no other message (the degenerate key without components, which used to verify everything, was found here and repaired). "
+                    "Keybase: every operation sequence refines a map key -> passphrase; a wrong passphrase never yields a key, signature or export "
+                    "and leaves the store literally unchanged; an import never overwrites; export then import under the right passphrase yields the "
+                    "same key and address, usable under the new passphrase; listing shows each stored key once. Partial: the cryptographic "
+                    "primitives are idealised (assumptions), tied to the real package by differential runs.",
+            "note": "ed25519/secp256k1/bcrypt/secretbox trusted; multisig and keybase logic modelled by hand and tied by T1", "technique": "Lean 4 proof over executable model + differential correspondence"},
     "C20": {"text": "Lean round-trip and order theorems for the encodings the model covers: uvarint/varint (10-byte bound, exact consumption), "
                     "length-delimited fields incl. refusal of truncated input, Int decimal text with the 255-bit check, Coin and Coins (with a proved "
                     "counterexample showing the necessary length bound), injectivity of the Coin encoding; power-index key round-trip and order "
